@@ -30,6 +30,7 @@ ASSUMPTIONS = [
     "normalize=True with fewer than 2 finite bars is outside the property's quantifier (0/0)",
 ]
 TOL = 1e-10
+COQ_DEPS = ["Corr/EntropyCorr.vo"]
 
 
 def _bars(rng, n, scale, equal=False):
